@@ -295,7 +295,12 @@ pub fn gen_spec(rng: &mut Rng, rich: bool) -> ElfSpec {
         let s0 = segs[0].clone();
         for _ in 0..rng.below(4) {
             match rng.below(6) {
-                0 => extra.push((PT_NOTE, 4, s0.vaddr + rng.below(s0.data.len().max(1) as u64), 0x10.min(s0.data.len() as u64), 0x10)),
+                0 => {
+                    // a note somewhere inside the first segment's file bytes (never past them)
+                    let off = rng.below(s0.data.len().max(1) as u64);
+                    let fs = 0x10.min((s0.data.len() as u64).saturating_sub(off));
+                    extra.push((PT_NOTE, 4, s0.vaddr + off, fs, fs));
+                }
                 1 => extra.push((PT_GNU_STACK, 6, 0, 0, 0)),
                 2 => extra.push((PT_GNU_PROPERTY, 4, s0.vaddr, 0x10.min(s0.data.len() as u64), 0x10)),
                 3 => extra.push((PT_GNU_EH_FRAME, 4, s0.vaddr, 0x8.min(s0.data.len() as u64), 8)),
